@@ -185,9 +185,13 @@ class C11(Prop):
     trusted_base = [
         "Coq 8.16.1 kernel + vm_compute (shard evaluation)",
         "hand-written model coq/Model/ConfigModel.v tied to invoke/config.py by differential execution (this run)",
-        "independence / non-mutation: SNAPSHOT TEST in the harness (deep equality of every caller-held source "
-        "and of the untouched object's view after every operation, object-identity walk over both objects' "
-        "levels) -- aliasing cannot be expressed in the pure model, the Coq side only judges the recorded flags",
+        "independence / non-mutation: PROVED on the explicit-heap model coq/Model/HeapMerge.v (merge_dicts writes only "
+        "base-reachable objects, adopts nothing, copy_dict/clone levels are fresh and pairwise disjoint; the heap "
+        "model refines the pure merge_dicts) and that model is tied to the real merge_dicts/copy_dict/Config.clone "
+        "by comparing the sharing relation observed with id() on object graphs with deliberate sharing (every "
+        "third case); for the rest of Config (proxies, _modifications, reloads) independence is a SNAPSHOT TEST "
+        "(deep equality of every caller-held source and of the untouched object's view after every operation, "
+        "object-identity walk over both objects' levels)",
         "harness/coqterm.py, harness/config_common.py, harness/props/c11.py, harness/props/c06.py (generator)",
         "CPython 3.12 executing the repository under test",
     ]
@@ -198,7 +202,9 @@ class C11(Prop):
         "dict would store them) and are not counted as 'supplied data'",
     ]
     not_modelled = [
-        "object identity (the model is pure: independence is tested, not proved)",
+        "object identity outside merge_dicts/copy_dict/clone's level copies (heap model covers these three; "
+        "DataProxy writes into _modifications by reference are tested by snapshots only)",
+        "cyclic dict graphs (the heap model runs on fuel; generated graphs are acyclic)",
         "Collection.configuration(): exercised by a separate snapshot test (extra check), its merge is C17",
     ]
 
